@@ -454,14 +454,39 @@ class ModelBasedSearcher(StochasticSearcher):
             model_params=self.model_parameters(),
             state=encode_state(self.state_transformer.state),
             skip_optimization=self.state_transformer.skip_optimization,
+            estimator_random_states={
+                name: random_state.get_state()
+                for name, random_state in self._estimator_random_states().items()
+            },
         )
         if self._restrict_configurations is not None:
             state["restrict_configurations"] = self._restrict_configurations
         return state
 
+    def _estimator_random_states(self) -> Dict[str, np.random.RandomState]:
+        """
+        The surrogate models draw fantasy samples (and restart points for fitting)
+        from their own random generators, whose states are part of the mutable
+        state
+        """
+        estimator = self.state_transformer.estimator
+        if not isinstance(estimator, dict):
+            estimator = {"": estimator}
+        result = dict()
+        for name, output_estimator in estimator.items():
+            gpmodel = getattr(output_estimator, "gpmodel", None)
+            random_state = getattr(gpmodel, "random_state", None)
+            if isinstance(random_state, np.random.RandomState):
+                result[name] = random_state
+        return result
+
     def _restore_from_state(self, state: Dict[str, Any]):
         super()._restore_from_state(state)
         self.state_transformer.set_params(state["model_params"])
+        random_states = self._estimator_random_states()
+        for name, rs_state in state.get("estimator_random_states", dict()).items():
+            if name in random_states:
+                random_states[name].set_state(rs_state)
         self._restrict_configurations = state.get("restrict_configurations")
         # The internal random searcher is generated once needed, and it shares its
         # ``random_state`` with this searcher here
